@@ -53,6 +53,20 @@ def _observer_only(F, owner, fld):
             not any(s["k"] == "assign" and s["lhs"]["l"] == 1 and s["lhs"]["p"] for b in nblocks for s in b["stmts"])
         if accessor:
             continue
+        # a read-only view: the receiver is a shared reference (nothing of the parser can be written through it) and nothing in the crates
+        # but other such views calls it - what it computes from the field leaves the library and cannot come back into the parse
+        def view(g, depth=0):
+            nargs = g.d.get("arg_count", getattr(g, "arg_count", 1))
+            if depth > 3 or len(g.locals) < 2 or not g.locals[1]["ty"].startswith("&") or any(g.locals[i]["ty"].startswith("&mut") for i in range(1, min(nargs, len(g.locals) - 1) + 1)):
+                return False
+            for cf, _, _ in F.callers_of(g.key):
+                if "::test" in cf.key:
+                    continue
+                if not view(cf, depth + 1):
+                    return False
+            return True
+        if view(f):
+            continue
         T = set()
         changed = True
         while changed:
